@@ -27,6 +27,11 @@ pub struct Workload {
     pub free_seed: u64,
     /// 0 = forward, 1 = reverse, 2 = seeded shuffle
     pub free_mode: u8,
+    /// placement of the allocator's mmaps, a repeating pattern of interposer hint modes:
+    /// 0 kernel default (usually adjacent), 1 directly above, 2 directly below the previous
+    /// mapping, 3 non-contiguous (8 MiB hole) - what foreign mappings next to a heap cause
+    #[serde(default)]
+    pub placement: Vec<u8>,
 }
 
 const MIB: usize = 1 << 20;
@@ -45,7 +50,9 @@ pub fn bound(w: &Workload) -> usize {
 
 /// Rounds needed so that losing one smallest chunk per round crosses the bound.
 pub fn rounds_for_full_sensitivity(w: &Workload) -> u64 {
-    let smallest = w.blocks.iter().map(|b| b.0).min().unwrap_or(1);
+    // smallest conceivable loss per round: one smallest block, but never more than one
+    // 64 KiB granule (a stranded segment stub), whatever the block sizes are
+    let smallest = w.blocks.iter().map(|b| b.0).min().unwrap_or(1).min(64 << 10);
     (2 * bound(w) as u64) / (smallest as u64 + 16) + 2
 }
 
@@ -92,6 +99,7 @@ pub fn run_workload(w: &Workload, op_budget: u64) -> Result<RunStats, Failure> {
     }
     sc::verif::install();
     sc::verif::clear_plan();
+    sc::verif::set_mmap_hint_cycle(w.placement.clone());
     sc::verif::log_begin();
     let base = held();
     let mut a = Dlmalloc::new();
@@ -148,6 +156,7 @@ pub fn run_workload(w: &Workload, op_budget: u64) -> Result<RunStats, Failure> {
     }
     // release everything the instance still holds (Dlmalloc has no Drop)
     let log = sc::verif::log_end();
+    sc::verif::clear_plan();
     let mut maps: BTreeMap<usize, usize> = BTreeMap::new();
     for c in &log {
         let err = c.ret > (-4096isize) as usize;
@@ -212,6 +221,8 @@ pub fn check_workload(ctx: &Ctx, w: &Workload) -> CaseResult {
     rep.class_if(!st.full_sensitivity, "low-sensitivity");
     rep.class_if(st.full_sensitivity, "full-sensitivity");
     rep.class_if(st.rounds >= 10_000, "10k+rounds");
+    rep.class_if(w.placement.contains(&3), "non-contiguous-segments");
+    rep.class_if(w.placement.contains(&1) || w.placement.contains(&2), "steered-adjacent-segments");
     let milli = (st.max_ratio_to_round_total * 1000.0) as u64;
     MAX_RATIO_MILLI.with(|m| {
         if milli > m.get() {
@@ -236,10 +247,16 @@ pub fn workload_strategy() -> impl Strategy<Value = Workload> {
         3 => prop::collection::vec((1usize..256, 0u8..5), 1..12),
         3 => prop::collection::vec((size_class(), prop_oneof![4 => 0u8..5, 1 => 5u8..13]), 1..60),
         1 => prop::collection::vec((size_class(), 0u8..5), 60..200),
-        2 => prop::collection::vec(((100usize << 10)..(2 << 20), 0u8..5), 1..12),
+        2 => prop::collection::vec(((100usize << 10)..(4 << 20), 0u8..5), 1..12),
         1 => prop::collection::vec((prop_oneof![(60usize << 10)..(70 << 10), (2usize << 20) - 4096..(2 << 20) + 4096], 0u8..5), 1..8),
     ];
-    (blocks, prop::collection::vec((any::<u16>(), any::<u16>()), 0..8), any::<u64>(), 0u8..3).prop_map(|(blocks, early_free, free_seed, free_mode)| Workload { blocks, early_free, free_seed, free_mode })
+    let placement = prop_oneof![
+        3 => Just(vec![]),
+        3 => Just(vec![3u8]),
+        2 => prop::collection::vec(0u8..4, 1..6),
+    ];
+    (blocks, prop::collection::vec((any::<u16>(), any::<u16>()), 0..8), any::<u64>(), 0u8..3, placement)
+        .prop_map(|(blocks, early_free, free_seed, free_mode, placement)| Workload { blocks, early_free, free_seed, free_mode, placement })
 }
 
 pub fn run(ctx: &Ctx) {
